@@ -192,7 +192,8 @@ def replay_config(ctx, rp, c, tag, must=MUST_TAKE, max_paths=None, extra_random=
     with fast_cover():
         return graph_replay(ctx, "Publisher", "Publisher", "Publisher_seq.cfg", tag, rp, proj, header_fn=hdr,
                             merge_re=r"(Wake|WFetch)$", must_take=must, constants=c, max_paths=max_paths,
-                            extra_random=extra_random, key_fn=key_fn, tlc_kw={"workers": 4})
+                            extra_random=extra_random, key_fn=key_fn, tlc_kw={"workers": 4},
+                            replay_timeout=180 if ctx.quick else 900)
 
 
 def expect_violation(ctx, c, tag, what):
